@@ -425,3 +425,134 @@ Proof.
   intros <-. rewrite Pp1 in Pp2. assert (X : forall a b : uri, POk a = POk b -> a = b) by (intros a b H; inversion H; reflexivity).
   symmetry. apply X. exact Pp2.
 Qed.
+
+(* ================================================================ Part F: whole histories under NoFault *)
+Lemma free_members_mwf m s : mwf m -> mwf (fst (free_members m s)).
+Proof.
+  intros (Hh & Hnd & Ha & Hb). destruct (m_owner m) eqn:Ho.
+  - unfold free_members. rewrite Ho. cbn [fst]. split; [intros x H; discriminate H|].
+    split; [constructor|]. split; [intros _; reflexivity|intros H; discriminate H].
+  - assert (B : bwf m) by (split; [exact Ho|apply Hb; reflexivity]).
+    destruct (bwf_free_members m s B) as [B' Hh']. apply bwf_mwf; [exact B'|apply Hh'; exact Hh].
+Qed.
+
+Lemma free_members_nofault m s : nofault s -> nofault (snd (free_members m s)).
+Proof. intros H. eapply st_le_nofault; [apply free_members_le|exact H]. Qed.
+
+(* one step of a history keeps: the plan NoFault, well-formedness of every object of the store *)
+Lemma hstep_mwf csize objs s op : nofault s -> Forall mwf objs ->
+  nofault (snd (hstep csize (objs, s) op)) /\ Forall mwf (fst (hstep csize (objs, s) op)).
+Proof.
+  intros Hnf F. destruct op as [t|i mask|i|compat i j|dr i j|i]; cbn [hstep].
+  - destruct (parse_m_erasure t s Hnf) as (K & _ & _ & _ & N). destruct (parse_m t s) as [[m|pos|] s']; cbn [fst snd] in *.
+    + split; [exact N|]. apply Forall_app. split; [exact F|]. constructor; [apply (K m eq_refl)|constructor].
+    + split; assumption.
+    + split; assumption.
+  - destruct (nth_error objs i) as [m|] eqn:EN; [|split; assumption].
+    pose proof (nth_Forall _ _ _ _ F EN) as Hw.
+    destruct (N.eq_dec mask 0) as [->|Hmask].
+    + rewrite normalize_m_zero. cbn [fst snd]. split; [exact Hnf|]. apply upd_Forall; assumption.
+    + destruct (m_owner m) eqn:Ho.
+      * destruct (C12_normalize_owned_stmt csize mask m s Hnf Hw Ho Hmask) as (m' & s' & E & _ & _ & _ & _ & Wf & _ & N).
+        rewrite E. cbn [fst snd]. split; [exact N|]. apply upd_Forall; assumption.
+      * destruct (C12_normalize_borrowed_stmt csize mask m s Hnf Hw Ho Hmask) as (m' & s' & E & _ & _ & _ & _ & Wf & _ & N).
+        rewrite E. cbn [fst snd]. split; [exact N|]. apply upd_Forall; assumption.
+  - destruct (nth_error objs i) as [m|] eqn:EN; [|split; assumption].
+    pose proof (nth_Forall _ _ _ _ F EN) as Hw. destruct (m_owner m) eqn:Ho.
+    + rewrite (make_owner_m_owned csize m s Ho). cbn [fst snd]. split; [exact Hnf|]. apply upd_Forall; assumption.
+    + destruct (C12_make_owner_stmt csize m s Hnf Hw Ho) as (m' & s' & E & _ & _ & _ & _ & _ & Wf & _ & N).
+      rewrite E. cbn [fst snd]. split; [exact N|]. apply upd_Forall; assumption.
+  - destruct (nth_error objs i) as [r|] eqn:EI; [|split; assumption].
+    destruct (nth_error objs j) as [b|] eqn:EJ; [|split; assumption].
+    destruct (C12_add_base_stmt compat r b s Hnf) as (rc & d & s' & E & _ & _ & _ & Wd & N). rewrite E. cbn [fst snd].
+    split; [exact N|]. apply Forall_app. split; [exact F|]. constructor; [|constructor].
+    apply Wd; eapply nth_Forall; eauto.
+  - destruct (nth_error objs i) as [r|] eqn:EI; [|split; assumption].
+    destruct (nth_error objs j) as [b|] eqn:EJ; [|split; assumption].
+    destruct (C12_remove_base_stmt dr r b s Hnf) as (rc & d & s' & E & _ & _ & _ & Wd & N). rewrite E. cbn [fst snd].
+    split; [exact N|]. apply Forall_app. split; [exact F|]. constructor; [|constructor].
+    apply Wd; eapply nth_Forall; eauto.
+  - destruct (nth_error objs i) as [m|] eqn:EN; [|split; assumption].
+    pose proof (nth_Forall _ _ _ _ F EN) as Hw. pose proof (free_members_nofault m s Hnf) as N.
+    pose proof (free_members_mwf m s Hw) as Wf. destruct (free_members m s) as [m' s']. cbn [fst snd] in *.
+    split; [exact N|]. apply upd_Forall; assumption.
+Qed.
+
+(* the store invariant of a fault-free history: [balanced] (the ledger is well formed and holds exactly the
+   blocks of the objects, each object is consistent and sane), the plan is NoFault, every object is [mwf] *)
+Definition store_ok (objs : list muri) (s : mstate) : Prop :=
+  balanced objs s /\ nofault s /\ Forall mwf objs.
+
+Lemma hstep_store_ok csize objs s op : store_ok objs s ->
+  store_ok (fst (hstep csize (objs, s) op)) (snd (hstep csize (objs, s) op))
+  /\ bad_frees (snd (hstep csize (objs, s) op)) = bad_frees s.
+Proof.
+  intros (Bal & Hnf & F). destruct (hstep_balanced csize objs s op Bal) as (B' & Bf & _).
+  destruct (hstep_mwf csize objs s op Hnf F) as (N' & F'). split; [split; [exact B'|split; assumption]|exact Bf].
+Qed.
+
+Lemma hrun_store_ok csize ops : forall objs s, store_ok objs s ->
+  store_ok (fst (hrun csize ops (objs, s))) (snd (hrun csize ops (objs, s)))
+  /\ bad_frees (snd (hrun csize ops (objs, s))) = bad_frees s.
+Proof.
+  unfold hrun. induction ops as [|op r IH]; intros objs s H; cbn [fold_left]; [split; [exact H|reflexivity]|].
+  destruct (hstep_store_ok csize objs s op H) as (H' & Bf). destruct (hstep csize (objs, s) op) as [objs' s']. cbn [fst snd] in *.
+  destruct (IH objs' s' H') as (H'' & Bf'). split; [exact H''|congruence].
+Qed.
+
+Lemma store_ok_init : store_ok [] (ms_init NoFault).
+Proof. split; [|split; [reflexivity|constructor]]. split; [apply wf_init|]. split; [constructor|]. intros x. reflexivity. Qed.
+
+(* two different slots of a store *)
+Lemma nth_blocks2 objs : forall i j m1 m2 x, i <> j -> nth_error objs i = Some m1 -> nth_error objs j = Some m2 ->
+  cnt (muri_blocks m1) x + cnt (muri_blocks m2) x <= cnt (all_blocks objs) x.
+Proof.
+  induction objs as [|a r IH]; intros [|i] [|j] m1 m2 x Hij H1 H2; cbn [nth_error] in H1, H2; try discriminate;
+    try (exfalso; apply Hij; reflexivity); rewrite all_blocks_cons.
+  - injection H1 as ->. pose proof (nth_blocks r j m2 x H2). lia.
+  - injection H2 as ->. pose proof (nth_blocks r i m1 x H1). lia.
+  - assert (Hij' : i <> j) by (intros ->; apply Hij; reflexivity). specialize (IH i j m1 m2 x Hij' H1 H2). lia.
+Qed.
+
+(* what the store invariant gives for the hypotheses of the theorems above *)
+Lemma store_ok_objects objs s : store_ok objs s ->
+  wf s /\ ledger_wf s /\ nofault s
+  /\ Permutation (live_ids s) (flat_map muri_blocks objs)
+  /\ (forall i m, nth_error objs i = Some m -> owns m s /\ mwf m /\ sane m /\ whole m s)
+  /\ (forall i j m1 m2, i <> j -> nth_error objs i = Some m1 -> nth_error objs j = Some m2 -> apart m1 m2).
+Proof.
+  intros (Bal & Hnf & F). pose proof Bal as (W & Fc & B).
+  split; [exact W|]. split; [apply wf_ledger_wf; exact W|]. split; [exact Hnf|].
+  split; [apply (balanced_meaning objs s); exact Bal|]. split.
+  - intros i m EN. destruct (balanced_owns objs s i m Bal EN) as [O Sn]. split; [exact O|].
+    split; [eapply nth_Forall; eauto|]. split; [exact Sn|]. apply whole_intro; [exact W|apply O].
+  - intros i j m1 m2 Hij E1 E2. assert (H : holds2 m1 m2 s).
+    { intros x. rewrite (B x). apply (nth_blocks2 objs i j); assumption. }
+    apply (holds2_elim m1 m2 s W H).
+Qed.
+
+(* any fault-free history from the empty store *)
+Lemma history_store_ok csize ops :
+  store_ok (fst (hrun csize ops ([], ms_init NoFault))) (snd (hrun csize ops ([], ms_init NoFault)))
+  /\ bad_frees (snd (hrun csize ops ([], ms_init NoFault))) = 0.
+Proof. exact (hrun_store_ok csize ops [] (ms_init NoFault) store_ok_init). Qed.
+
+(* in a reachable store: object j owns all its text (it went through make-owner or normalisation, or holds no
+   text at all); then it refers to no caller memory, and releasing any other object i leaves it whole *)
+Lemma history_release_other csize ops i j m1 m2 :
+  let st := hrun csize ops ([], ms_init NoFault) in
+  i <> j -> nth_error (fst st) i = Some m1 -> nth_error (fst st) j = Some m2 ->
+  whole m2 (snd st) /\ apart m1 m2
+  /\ (let s1 := snd (free_members m1 (snd st)) in whole m2 s1 /\ owns m2 s1 /\ bad_frees s1 = 0)
+  /\ (m_owner m2 = true -> all_owned m2 = true /\ depends_on_input m2 = false).
+Proof.
+  cbv zeta. intros Hij E1 E2. destruct (history_store_ok csize ops) as (St & Bf).
+  destruct (store_ok_objects _ _ St) as (W & _ & _ & _ & Ob & Ap).
+  destruct (Ob i m1 E1) as (O1 & _ & _ & _). destruct (Ob j m2 E2) as (O2 & Wf2 & _ & Wh2).
+  pose proof (Ap i j m1 m2 Hij E1 E2) as A. split; [exact Wh2|]. split; [exact A|]. split.
+  - destruct (free_members m1 (snd (hrun csize ops ([], ms_init NoFault)))) as [m1' s1] eqn:EF. cbn [snd].
+    destruct (release_other m1 m2 _ m1' s1 W O1 O2 A EF) as (W1 & O2' & B1 & N & I & It & _).
+    split; [split; [exact N|split; assumption]|]. split; [exact O2'|congruence].
+  - intros Ho. destruct Wf2 as (_ & _ & Ha & _). specialize (Ha Ho). split; [exact Ha|].
+    unfold depends_on_input. rewrite Ha. reflexivity.
+Qed.
